@@ -145,58 +145,3 @@ fn c03_client_challenge() {
     kani::cover!(g != 7, "announced generator other than 7");
     kani::cover!(name.as_ref().len() == 16, "16-byte name");
 }
-
-/// C01/C03: on the client the path from the shared secret to the session key is
-/// K = SHA_Interleave(32-byte zero-padded little-endian S), S = (B - 3*g^x)^(a + u*x) mod N — with the real
-/// S computation and the real interleave (only x, u, A and M1 are uninterpreted here).
-#[kani::proof]
-#[kani::unwind(66)]
-#[kani::stub(core::str::from_utf8, verif_oracle::from_utf8_model)]
-#[kani::stub(crate::srp_internal_client::calculate_client_public_key, sch::stub_client_public_key)]
-#[kani::stub(crate::srp_internal::calculate_x, sih::stub_x)]
-#[kani::stub(crate::srp_internal::calculate_u, sih::stub_u)]
-#[kani::stub(crate::srp_internal_client::calculate_client_proof_with_custom_value, sch::stub_client_proof_custom)]
-fn c01_client_s_to_k() {
-    use num_bigint::BigInt;
-    let name = any_name(4);
-    let pw = any_name(4);
-    let g: u8 = kani::any();
-    let n: [u8; 32] = kani::any();
-    let mut nz = false;
-    let mut i = 0;
-    while i < 32 {
-        if n[i] != 0 {
-            nz = true;
-        }
-        i += 1;
-    }
-    kani::assume(nz);
-    let b_pub = sih::any_valid_public_key();
-    let salt: [u8; 32] = kani::any();
-    let ch = SrpClientChallenge::new(name.clone(), pw.clone(), g, n, b_pub, salt);
-    let a = verif_oracle::draw_bytes(0);
-    // specification
-    let a_pub = match sch::stub_client_public_key(&PrivateKey::from_le_bytes(a), &Generator::from(g), &LargeSafePrime::from_le_bytes(n)) {
-        Ok(k) => k,
-        Err(_) => unreachable!(),
-    };
-    let x = sih::stub_x(&name, &pw, &Salt::from_le_bytes(salt));
-    let u = sih::stub_u(&a_pub, &b_pub);
-    let base = sih::big(b_pub.as_le_bytes()) - BigInt::from(3u8) * BigInt::from(g).modpow(&sih::big(x.as_le_bytes()), &sih::big(&n));
-    let exp = sih::big(&a) + sih::big(u.as_le_bytes()) * sih::big(x.as_le_bytes());
-    let s = sih::pad32(&base.modpow(&exp, &sih::big(&n)));
-    let mut zero = true;
-    let mut i = 0;
-    while i < 32 {
-        if s[i] != 0 {
-            zero = false;
-        }
-        i += 1;
-    }
-    if !zero {
-        let k = sih::spec_interleave(&s);
-        assert!(eq40(ch.session_key.as_le_bytes(), &k), "C01: client session key is not SHA_Interleave of the zero-padded 32-byte secret");
-    }
-    kani::cover!(!zero && s[31] == 0 && s[30] == 0 && s[29] != 0, "secret with two high zero bytes");
-    kani::cover!(!zero && s[0] == 0 && s[1] != 0, "secret with one low zero byte");
-}
